@@ -24,7 +24,7 @@ ASSUMPTIONS = ["vf/ref/qasm2.py reads the emitted subset with standard openQASM 
                "equality of circuits = same register counts and, per quantum register, the same sequence of operations after expanding "
                "wrappers and dropping identities"]
 REQUIRED_CLASSES = {"roundtrip": ["wrapper_len>=2", "multi_then_multi", "reg>=10", "phase_dagger", "identity_only_wrapper", "photon_one_qubit", "mcr_reg>=10",
-                                 "exported_after:unwrap", "exported_after:group", "exported_after:rmid", "exported_after:copy"]}
+                                 "exported_after:unwrap", "exported_after:group", "exported_after:rmid", "exported_after:copy", "exported_after:replace"]}
 
 
 def norm_wires(desc):
@@ -92,11 +92,25 @@ def check(case, sub="roundtrip"):
     desc = case["circ"]
     icls = input_class(desc)
     cl = classes(desc)
-    circ = gc.build(desc)
+    circ, objs = gc.build(desc, return_ops=True)
     n = desc["ne"] + desc["np"]
+    if "replace" in case.get("pre", []):
+        # one plain one-qubit gate replaced on its node by a gate kind that may not occur anywhere else in the circuit
+        idx = [i for i, d in enumerate(desc["ops"]) if d[0] in ("H", "P", "X", "Y", "Z", "Pdag")]
+        if idx:
+            i = idx[len(desc["ops"]) % len(idx)]
+            nid = [x for x in circ.dag.nodes if circ.dag.nodes[x].get("op") is objs[i]]
+            if len(nid) == 1:
+                d = desc["ops"][i]
+                nd = [{"H": "Pdag", "P": "Y", "X": "Pdag", "Z": "Y", "Y": "P", "Pdag": "H"}[d[0]], d[1], d[2]]
+                guarded(sub, icls, circ.replace_op, nid[0], gc.make_op(nd))
+                desc = dict(desc, ops=[list(x) for x in desc["ops"][:i]] + [nd] + [list(x) for x in desc["ops"][i + 1:]])
+                cl.append("exported_after:replace")
     # exporting a circuit that was rewritten in place (or is a copy) must work just as well: the identity-free expanded
     # sequence on every register is unchanged by these rewrites
     for rw in case.get("pre", []):
+        if rw == "replace":
+            continue
         if rw == "copy":
             circ = guarded(sub, icls, circ.copy)
         else:
@@ -199,7 +213,7 @@ def st_big_circuit(draw):
 
 def strat(tier):
     small = gc.st_circuit(max_q=5, max_len=25, max_c=3)
-    pre = st.one_of(st.just([]), st.lists(st.sampled_from(["unwrap", "group", "rmid", "copy"]), min_size=1, max_size=2))
+    pre = st.one_of(st.just([]), st.lists(st.sampled_from(["unwrap", "group", "rmid", "copy", "replace", "replace"]), min_size=1, max_size=2))
     return st.tuples(st.one_of(small, small, st_big_circuit()), pre).map(lambda t: {"circ": t[0], "pre": t[1]})
 
 
